@@ -1,10 +1,10 @@
 package main
 
 import (
-	"math"
-	"os"
 	"fmt"
 	"go/types"
+	"math"
+	"os"
 
 	"golang.org/x/tools/go/ssa"
 )
